@@ -1,0 +1,27 @@
+//go:build verif
+
+package quic
+
+// C21, the local stream limit's gate: the limit is enforced by the gate being "set" exactly while
+// opened < max, and (*localStreamLimits).unlock is the one place that recomputes this condition
+// (its own contract asserts `set == (opened < max)` at the gate). Every function of the type that
+// takes the gate must therefore release it through lim.unlock, exactly once, and not through the
+// raw gate: wasOpened (a read-only query) in particular.
+//
+//@ func (*localStreamLimits).wasOpened(lim, num) (r)
+//@   requires lim != nil
+//@   ghost viaLim += 1 at call (*localStreamLimits).unlock
+//@   ensures  ghost(viaLim) == 1
+//@   ensures  r <==> num < old(lim.opened)
+//@   ensures  lim.opened == old(lim.opened) && lim.max == old(lim.max)
+
+//@ extend (*localStreamLimits).setMax(lim, maxStreams)
+//@   ghost viaLim += 1 at call (*localStreamLimits).unlock
+//@   ensures  ghost(viaLim) == 1
+
+//@ func (*localStreamLimits).connHasClosed(lim)
+//@   requires lim != nil
+//@   ghost viaLim += 1 at call (*localStreamLimits).unlock
+//@   ensures  ghost(viaLim) == 1
+//@   ensures  lim.opened == -1 && lim.max == old(lim.max)
+//@   modifies lim.opened
